@@ -5,5 +5,6 @@ CONSTANTS
   TextReps <- BoundaryText
   MaxText = 5
   IndexMode = "uchar"
-INVARIANTS Refines Progress IndexInTable WindowInv
+  ReadMode = "forward"
+INVARIANTS Refines Progress IndexInTable WindowInv ReadsInInput ReadsPrefix
 PROPERTY Terminates
